@@ -26,9 +26,9 @@ CHECKS = [
         "level": "model_checking",
         "technique": "exhaustive enumeration of transport event scripts on the real client under a virtual-time event loop, compared with a reference retry machine",
         "text": "Every transport event script up to length 5 (quick) / 7 (thorough) over 10 event kinds, five endless tails, "
-        "max_retry 0..3, per-request overrides, failing reconnects and long runs around the 120-reply / silence limits is "
+        "max_retry 0..3, per-request overrides, failing reconnects and long runs around the 120-reply / silence limits and per-transmission budgets is "
         "executed on the real UDSClient.request under virtual time; outcome, number of transmissions, reconnects, "
-        "no-retransmission-in-pending, effective timeout and bounded completion are compared with a reference machine "
+        "no-retransmission-in-pending, effective timeout, bounded completion and 'never use a transport instance that reconnect() replaced' are compared with a reference machine "
         "written from the statement. Exhaustive within that bound.",
         "note": "Trusted: CPython asyncio primitives, the reference retry machine, the scripted transport as a complete "
         "description of transport behaviour. Not covered: scripts longer than the bound (except the listed long families).",
@@ -38,7 +38,7 @@ CHECKS = [
         "level": "model_checking",
         "technique": "stateless deviation-bounded exploration of all schedules (reply arrival vs timers, cancellation points, start orders) of concurrent callers on the real ECU client under a virtual-time event loop; monitor on the task-tagged transport log",
         "text": "2-3 caller tasks (1-2 requests each, caller-unique identifiers; plus four- and five-caller sets with bound 1), the real cyclic tester-present worker and a "
-        "reconnect caller share one real ECU object; for every scenario (reply scripts R/PR/-/C per caller, start orders, "
+        "reconnect caller or a task that stops the worker mid-exchange share one real ECU object; for every scenario (reply scripts R/PR/-/C per caller and per-transmission scripts like PC|R, start orders, "
         "max_retry 0/1) every schedule with <= 2 deviations (3 in the thorough tier on two-caller scenarios) is executed: reply "
         "delivered while tasks are runnable, timer before a deliverable reply, both in one iteration, one cancel at any "
         "iteration boundary. A monitor checks that no other task writes/reconnects inside an exchange window, that every "
@@ -50,7 +50,7 @@ CHECKS = [
         "engine": "vloop",
         "level": "model_checking",
         "technique": "stateless deviation-bounded exploration of the real DoIP transport on an in-memory TCP stream: exhaustive gateway frame scripts x release points x segmentations x schedules, judged by an ideal in-order demultiplexer using frame delivery times",
-        "text": "The real DoIPTransport.connect/write/read run against a scripted gateway: (i) all 256 activation types x protocol versions and all 256 routing activation response codes (usable iff success code, request bytes exact); (ii) every sequence of <= 3 gateway frames (<= 2 with the full 21-letter alphabet, 3 with a 9-letter core; thorough: wider) x release after activation / after the k-th write x 4 client programs followed by draining reads x segmentations (coalesced, frame-aligned, byte-by-byte, every single split) x every schedule with <= 1 (thorough 2) deviations. Checked per execution: write ok iff matching ACK (TargetUnreachable NACK tolerated) delivered within 2 s else ConnectionError by the deadline; reads return exactly the diagnostic messages for this address pair in stream order, nothing lost or fabricated; every alive check answered with the tester address within 0.5 s in every client phase; only expected frames on the wire.",
+        "text": "The real DoIPTransport.connect/write/read run against a scripted gateway: (i) all 256 activation types x protocol versions and all 256 routing activation response codes (usable iff success code, request bytes exact); (ii) every sequence of <= 3 gateway frames (<= 2 with the full 22-letter alphabet incl. reversed-pair messages, 3 with a 9-letter core; thorough: wider) x release after activation / after the k-th write (optionally a given time later: traffic spread over the ack window) x 4 client programs followed by draining reads x segmentations (coalesced, frame-aligned, byte-by-byte, every single split) x every schedule with <= 1 (thorough 2) deviations. Checked per execution: write ok iff matching ACK (TargetUnreachable NACK tolerated) delivered within 2 s else ConnectionError by the deadline; reads return exactly the diagnostic messages for this address pair in stream order, nothing lost or fabricated; every alive check answered with the tester address within 0.5 s in every client phase; only expected frames on the wire.",
         "note": "Trusted: CPython asyncio streams/primitives, FIFO callback order as reproduced by vloop, the independent frame encoder and "
         "the ideal demultiplexer in vf/checks/demux.py. Not covered: scripts longer than the bound, more deviations than the bound, "
         "two client tasks using one transport concurrently, caller timeouts on write.",
@@ -60,7 +60,7 @@ CHECKS = [
         "engine": "vloop",
         "level": "model_checking",
         "technique": "stateless deviation-bounded exploration of the real HSFZ transport on an in-memory TCP stream: exhaustive gateway frame scripts x release points x segmentations x schedules, judged by an ideal in-order demultiplexer using frame delivery times",
-        "text": "The real HSFZTransport.connect/write/read run against a scripted gateway: every sequence of <= 3 gateway frames (<= 2 with the full 18-letter alphabet, 3 with an 8-letter core; thorough: wider) x release at connect / after the k-th write x 4 client programs followed by draining reads x segmentations (coalesced, frame-aligned, byte-by-byte, every single split) x ack timeouts 250/1000/2500 ms x every schedule with <= 1 (thorough 2) deviations. Checked per execution: write ok iff an ack with the tester's pair echoing the first five bytes is delivered within the ack timeout, else ConnectionError by the deadline and the connection is closed; reads return exactly the data frames ecu->tester in stream order; error control words make the next consumer raise a ConnectionError; alive checks are answered in the same instant with the tester address.",
+        "text": "The real HSFZTransport.connect/write/read run against a scripted gateway: every sequence of <= 3 gateway frames (<= 2 with the full 19-letter alphabet incl. reversed-pair data, 3 with an 8-letter core; thorough: wider) x release at connect / after the k-th write (optionally a given time later) x 4 client programs followed by draining reads x segmentations (coalesced, frame-aligned, byte-by-byte, every single split) x ack timeouts 250/1000/2500 ms x every schedule with <= 1 (thorough 2) deviations. Checked per execution: write ok iff an ack with the tester's pair echoing the first five bytes is delivered within the ack timeout, else ConnectionError by the deadline and the connection is closed; reads return exactly the data frames ecu->tester in stream order; error control words make the next consumer raise a ConnectionError; alive checks are answered in the same instant with the tester address.",
         "note": "Trusted: CPython asyncio streams/primitives, FIFO callback order as reproduced by vloop, the independent frame encoder and "
         "the ideal demultiplexer in vf/checks/demux.py. Not covered: scripts longer than the bound, more deviations than the bound, "
         "two client tasks using one transport concurrently, caller timeouts on write.",
@@ -85,10 +85,10 @@ CHECKS = [
         "technique": "exhaustive crash-point enumeration (every byte offset of the peer's output x EOF/RST/silence) on the real transports and UDS client under a virtual-time event loop, with deviation-bounded timing exploration",
         "text": "For tcp-lines, unix-lines, DoIP and HSFZ the exchange connect(+activation); write; (ack); reply against a well-behaved peer is cut at every "
         "byte offset of the peer's output, by EOF, RST or silence, with and without a caller timeout (mode A: bare transport operations), under the "
-        "real UDSClient with max_retry 1/3 and a listener that accepts again after 0/0.05/0.35/2.5/11 s (mode B; also with a peer that answers responsePending before the reply), and with double close / close after "
+        "real UDSClient with max_retry 1/3 and a listener that accepts again after 0/0.05/0.35/2.5/11 s or never (mode B; also with a peer that answers responsePending before the reply), and with double close / close after "
         "loss (mode C); each scenario with <= 1 (thorough 2) timing deviations. Checked: every pending operation ends with a timeout, a connection error "
         "or an empty read no later than caller timeout + ack time and never hangs (deadlock/horizon detection); no read returns data the peer did not "
-        "completely send; with a retry left and a peer that accepts and answers in time the request returns the correct reply through a reconnect; "
+        "completely send; with a retry left and a peer that accepts and answers in time - in particular one that is back within the client's first back-off - the request returns the correct reply through a reconnect; "
         "close() never raises.",
         "note": "Trusted: the stream loss model (eof_received / connection_lost(ConnectionResetError) / silence) and vloop. A read without caller timeout on "
         "a merely silent peer is allowed to wait. Recovery is only demanded when the peer's answer on the new connection reached the client in time.",
@@ -148,7 +148,7 @@ CHECKS = [
         "level": "model_checking",
         "technique": "exhaustive enumeration of all session-transition graphs (ECU models) x scanner configurations; the real SessionsScanner.entry_point() runs on each under a virtual-time event loop and is compared with a reference breadth-first search",
         "text": "All directed session graphs on the default session + 2 further sessions (256 graphs each for ids (2,3) and (3,0x40)); thorough: + 3 "
-        "further sessions (32768 graphs) x depth x skip sets x thorough x reset x refusal flavour (0x12 / 0x7E / 0x22). Each configuration is one complete "
+        "further sessions (32768 graphs) x depth x skip sets x thorough x reset x refusal flavour (0x12 / 0x7E / 0x22); variants: ECU refusing TesterPresent outside the default session with 0.3 s reply latency (the keep-alive worker fires), a second scan into a database holding an earlier deeper scan. Each configuration is one complete "
         "run of the real scanner command (setup, 127 probes per stack, teardown) against the model ECU through the real tcp-lines transport. Checked: "
         "result == sessions reachable from 0x01 within depth through non-skipped probes (reference BFS), every reported 'via stack' path is a real path "
         "of length <= depth (also as session_transition rows of a scan database in a sub-family of runs), skipped sessions are never requested, the scan terminates on cyclic graphs, exit code 0 (or the documented abort with exit "
@@ -176,9 +176,9 @@ CHECKS = [
         "level": "model_checking",
         "technique": "exhaustive enumeration of table-driven ECU models x scanner configurations; the real ServicesScanner / ScanIdentifiers entry_point() run on each under a virtual-time event loop and are compared with the scanner semantics computed from the model table",
         "text": "Service scan: 7 vendor / response-id services each meet every (availability profile over sessions {1,2,3} x answer behaviour) combination "
-        "(63 each: positive on exactly one probe length, 0x31, 0x33, 0x13 only, silent, positive on an unprobed length), ISO services 0x22/0x3E/0x31/0x85 every "
+        "(98 each: positive on exactly one probe length, 0x31/0x33/0x7E/0x12/0x22, 0x13 only, silent, silent below a probe length, positive on an unprobed length), ISO services 0x22/0x3E/0x31/0x85 every "
         "profile x well-formed behaviour, packed 11 per model (thorough: plus a cross product on two services), x 6 configurations (session lists incl. none "
-        "and an unavailable session, skip maps incl. bare session key, response ids, check-session, reset). Checked: reported services are implemented in "
+        "and an unavailable session, skip maps incl. bare session key, response ids, check-session, reset) plus timed models (S3 session timeout; an ECU that reboots on a probe). Checked: reported services are implemented in "
         "that session; every implemented service that answers a probe meaningfully is reported; every service id 0x00-0xFF (response ids only on request) "
         "is probed while the ECU is in the claimed session; skipped ids are never sent; exit code. Identifier scan: all subsets of a 6-identifier universe "
         "straddling a byte boundary per session x service {0x22, 0x27, 0x2E, 0x31} x start/end windows x skip x check-session x payload: the 'Positive "
@@ -195,7 +195,7 @@ CHECKS = [
         "timeout, connection error, reply of another service, truncated reply}; all sequences of length <= 3 (quick) / 4 (thorough) over a 14-letter "
         "state-relevant alphabet (DSC ok/refused, SecurityAccess seed/key, ECUReset, F186 reads, plain read, suppressed TesterPresent, timeout, mismatch, "
         "malformed, connection error, negative reply) with alternating ANALYZE tags; implicit-logging toggles; a failing run; messages of 4095/4096/5000 bytes; 32 full "
-        "UDSScanner lifecycles (flag on/off before setup x properties x ping x toggles in main). Schedules: database "
+        "UDSScanner lifecycles (flag on/off before setup x properties x ping x toggles in main); three concurrent users of the ECU object (60 orders); requests ending with uncommon exceptions; a transient 'database is locked' on the k-th row. Schedules: database "
         "completions early/late (<= 1, thorough 2 deviations) and one cancellation of the run at every iteration boundary, then complete_run_meta + "
         "disconnect. Checked on the database file: one row per completed exchange while implicit logging is on, in transmission order, exact request "
         "and reply bytes (or NULL), exception column set iff the request raised and naming the class, request_time = transmission time <= response_time, "
